@@ -91,7 +91,8 @@ type shape struct {
 	attrVars []attrVariant // sizes/layouts of the .gitattributes files explored by the "attrsize" slice (nil: none)
 	note     string
 	// index-state family (c13_index_verif_test.go): one HEAD, many staged states
-	family   string                      // "" = history shapes with the standard slices; "index" = index-state shapes with their own slices
+	family   string                      // "" = history shapes with the standard slices; "index" = index-state shapes with their own slices; "attrlay" = the attribute-layout world (c13_attr_verif_test.go)
+	layouts  []attrLayout                // family "attrlay": layout of the attribute files of commit i
 	wtKeep   []string                    // paths removed from the index whose work-tree file stays (git rm --cached); content = HEAD's blob
 	diffWant func(assign []form) []string // expected `git diff-index -M --cached HEAD` entries (self-check of the construction), nil: not checked
 }
@@ -379,6 +380,7 @@ func shapes() []shape {
 		objForms: [][]form{allCanon(3), {fRaw, fCRLF, fCanon}},
 	})
 	r = append(r, indexShapes()...)
+	r = append(r, alShape()) // appended last: the positions of the earlier shapes stay
 	for i := range r {
 		if len(r[i].objForms[0]) != r[i].nslots {
 			panic("shape table: objForms")
@@ -394,6 +396,9 @@ type baseInfo struct {
 	dir     string
 	commits []string // commit ids, index = commit number
 	err     string
+	// family "attrlay": per commit, path -> value of the filter attribute as `git check-attr` evaluates it against that
+	// commit's tree (attrTruth); nil for the other shapes, whose tracked-ness is stated by construction and self-checked
+	truth []map[string]string
 }
 
 type baseCache struct {
@@ -558,6 +563,12 @@ func buildBase(w *gitx.World, sh *shape, assign []form, av attrVariant, info *ba
 	if len(got) != 0 {
 		panic(fmt.Sprintf("base %s: unexpected index entries %v", filepath.Base(dir), got))
 	}
+	if sh.family == "attrlay" {
+		// tracked-ness is git's own answer per commit tree; the table's declarations are only checked against it
+		info.truth = attrTruth(w, filepath.Dir(dir), sh, dir, info.commits)
+		checkLayoutTable(sh, info.truth)
+		return
+	}
 	// tracked-ness by construction == git's own attribute lookup (index tree; HEAD tree when they agree on attributes)
 	var paths []string
 	for _, e := range it {
@@ -670,6 +681,12 @@ type expectation struct {
 	rawPairs        map[string]bool   // "commit path" pairs that really are non-pointers at tracked paths in inspected commits (incl. may)
 	rawIndexOnly    map[string]bool   // paths that are raw at a tracked path of the index state (no commit to attribute them to)
 	ncWhy, rawWhy   map[string]string
+	// family "attrlay" only (git's own attribute answer available): where a demanded problem sits and which present,
+	// NOT LFS-tracked files of the inspected commits a false report could be about
+	ncAt        map[string][2]string // demanded non-canonical blob -> {commit index, path} (first inspected commit)
+	rawAt       map[string]string    // demanded raw path -> commit index (first inspected commit)
+	untrackedNC map[string][2]string // blob sha of a non-canonical pointer at a path that is not LFS-tracked -> {commit index, path}
+	untrackedAt map[string]string    // "commit path" of a regular file that is not LFS-tracked in that commit -> commit index
 }
 
 func raise(m map[string]level, why map[string]string, oid string, l level, reason string) {
@@ -694,7 +711,15 @@ func raise(m map[string]level, why map[string]string, oid string, l level, reaso
 func expect(sh *shape, assign []form, info *baseInfo, rv revSpec, ex exclSpec, doObjects, doPointers bool) *expectation {
 	initContents()
 	x := &expectation{obj: map[string]level{}, objWhy: map[string]string{}, objAlsoExcluded: map[string]bool{}, objExcludedInCommit: map[string]bool{}, objInsideInclude: map[string]bool{}, ncMust: map[string]string{}, ncMay: map[string]string{},
-		rawMust: map[string]bool{}, rawMay: map[string]bool{}, rawPairs: map[string]bool{}, rawIndexOnly: map[string]bool{}, ncWhy: map[string]string{}, rawWhy: map[string]string{}}
+		rawMust: map[string]bool{}, rawMay: map[string]bool{}, rawPairs: map[string]bool{}, rawIndexOnly: map[string]bool{}, ncWhy: map[string]string{}, rawWhy: map[string]string{},
+		ncAt: map[string][2]string{}, rawAt: map[string]string{}, untrackedNC: map[string][2]string{}, untrackedAt: map[string]string{}}
+	// is the path LFS-tracked in commit c?  git's own answer where it was asked (family attrlay), else the shape table (self-checked); c < 0 = the index
+	trk := func(c int, e ent) bool {
+		if c >= 0 && info != nil && info.truth != nil {
+			return info.truth[c][e.path] == "lfs"
+		}
+		return e.tracked
+	}
 	refsOf := func(t tree) map[string]bool {
 		m := map[string]bool{}
 		for _, e := range t {
@@ -713,7 +738,7 @@ func expect(sh *shape, assign []form, info *baseInfo, rv revSpec, ex exclSpec, d
 				}
 			}
 		}
-		scan := func(t tree, src string) {
+		scan := func(t tree, src string, c int) {
 			for _, e := range t {
 				if e.kind != kLFS || !e.formIn(assign).isPointer() {
 					continue
@@ -726,7 +751,7 @@ func expect(sh *shape, assign []form, info *baseInfo, rv revSpec, ex exclSpec, d
 					if src == "commit" {
 						x.objExcludedInCommit[oid] = true
 					}
-				case !e.tracked:
+				case !trk(c, e):
 					raise(x.obj, x.objWhy, oid, lvMay, "untracked-pointer")
 				case baseRefs[oid]:
 					raise(x.obj, x.objWhy, oid, lvMay, "range-unchanged")
@@ -739,16 +764,25 @@ func expect(sh *shape, assign []form, info *baseInfo, rv revSpec, ex exclSpec, d
 			}
 		}
 		for _, c := range rv.commits {
-			scan(sh.commits[c], "commit")
+			scan(sh.commits[c], "commit", c)
 		}
 		if rv.useIndex && sh.index != nil {
-			scan(sh.index, "index")
+			scan(sh.index, "index", -1)
 		}
 	}
 	if doPointers {
-		scan := func(t tree, commit string, may bool) {
+		scan := func(t tree, commit string, may bool, c int) {
 			for _, e := range t {
-				if e.kind != kLFS || !e.tracked {
+				if e.kind != kLFS {
+					continue
+				}
+				if !trk(c, e) {
+					if c >= 0 && info.truth != nil {
+						x.untrackedAt[commit+" "+e.path] = fmt.Sprint(c)
+						if e.formIn(assign).nonCanonical() {
+							x.untrackedNC[gitBlobSha(e.blob(assign, attrShort))] = [2]string{fmt.Sprint(c), e.path}
+						}
+					}
 					continue
 				}
 				f := e.formIn(assign)
@@ -770,6 +804,9 @@ func expect(sh *shape, assign []form, info *baseInfo, rv revSpec, ex exclSpec, d
 					} else {
 						x.rawMust[e.path] = true
 						x.rawWhy[e.path] = why
+						if _, ok := x.rawAt[e.path]; !ok {
+							x.rawAt[e.path] = fmt.Sprint(c)
+						}
 					}
 				} else if f.nonCanonical() {
 					sha := gitBlobSha(e.blob(assign, attrShort))
@@ -778,21 +815,33 @@ func expect(sh *shape, assign []form, info *baseInfo, rv revSpec, ex exclSpec, d
 					} else {
 						x.ncMust[sha] = contentOid[e.content]
 						x.ncWhy[sha] = formNames[f]
+						if _, ok := x.ncAt[sha]; !ok {
+							x.ncAt[sha] = [2]string{fmt.Sprint(c), e.path}
+						}
 					}
 				}
 			}
 		}
 		for _, c := range rv.commits {
-			scan(sh.commits[c], info.commits[c], false)
+			scan(sh.commits[c], info.commits[c], false, c)
 		}
 		if rv.useIndex && sh.index != nil {
-			scan(sh.index, "", true)
+			scan(sh.index, "", true, -1)
 		}
 	}
 	return x
 }
 
 func sortedKeys(m map[string]bool) []string {
+	var r []string
+	for k := range m {
+		r = append(r, k)
+	}
+	sort.Strings(r)
+	return r
+}
+
+func sortedStrKeys[V any](m map[string]V) []string {
 	var r []string
 	for k := range m {
 		r = append(r, k)
